@@ -138,6 +138,11 @@ class HTMLParser(object):
 
             if self.innerHTML in cdataElements:
                 self.tokenizer.state = self.tokenizer.rcdataState
+            elif self.innerHTML == 'script':
+                self.tokenizer.state = self.tokenizer.scriptDataState
+            elif self.innerHTML == 'noscript' and not self.scripting:
+                # with scripting disabled the content of noscript is markup
+                pass
             elif self.innerHTML in rcdataElements:
                 self.tokenizer.state = self.tokenizer.rawtextState
             elif self.innerHTML == 'plaintext':
